@@ -83,33 +83,6 @@ var vSubjects = []string{
 	"ss", "class", "classes", "\t", "ſ", "mongoose", "Mongooses", "money", "monies", "trilby", "trilbys", "turf", "turfs",
 }
 
-// Verif_C20_RegexpDiff: translator validation of the engine's regexp encoding.
-// All inputs are concrete; every compiled pattern of rule k is applied to a
-// chunk of subjects and the submatch offsets are observed - under the engine by
-// its encoding, natively (witness replay) by the real regexp package.
-func Verif_C20_RegexpDiff(k, chunk int) {
-	r := vRule(k)
-	lo, hi := chunk*12, chunk*12+12
-	if hi > len(vSubjects) {
-		hi = len(vSubjects)
-	}
-	for _, s := range vSubjects[lo:hi] {
-		verifsym.Observe("irr", r.compiledIrregular.FindStringSubmatchIndex(s))
-		verifsym.Observe("unf", r.compiledUninflected.MatchString(s))
-		var hits []int
-		for i, cr := range r.compiledRules {
-			if cr.Regexp.MatchString(s) {
-				hits = append(hits, i)
-				verifsym.Observe("rule", cr.Regexp.FindStringSubmatchIndex(s))
-				verifsym.Observe("repl", cr.Regexp.ReplaceAllString(s, cr.Replacement))
-			}
-		}
-		verifsym.Observe("hits", hits)
-		verifsym.Observe("inflected", r.inflected(s))
-	}
-	verifsym.Reach("end")
-}
-
 // Verif_C20_CallHistory: "the same result for the same input on every call",
 // over call histories through the memoising wrapper: for two arbitrary inputs
 // s1 (n1 bytes) and s2 (n2 bytes), Inflected(s1), Inflected(s2), Inflected(s1)
